@@ -104,6 +104,24 @@ SEEDS = {
  "C16-2": ("C16", "collection.go Len(): result cached on a pooled rootNodeLoc and never reset on reuse",
            "Len(); two mutations; Len() again (recycled version handle)",
            {"C16": "len"}),
+ "C17-1": ("C17", "collection.go SetItem(): accepts a nil Val once an ItemValLength callback is installed",
+           "an ItemValLength callback (even the neutral len(Val)) plus SetItem(k, nil)",
+           {"C17": "invalid-accepted, only with the callback subset (after invalid SetItems were added to the C17 profile; missed before)"}),
+ "C17-2": ("C17", "item.go itemLoc.read(): with an AfterItemRead hook installed the value-read error is overwritten by the hook's nil error",
+           "AfterItemRead installed, value not cached, the file failing exactly the value read",
+           {"C17": "error-swallowed (fault phase TestC17Fault, differential against the callback-free execution; missed before that phase existed)"}),
+ "C18-1": ("C18", "collection.go iterate(): the early exit on a Close() before the first Next() is lost, the producer starts the walk and blocks forever",
+           "Close() as the first call on an iterator with at least one item in range",
+           {"C18": "goroutine-leak"}),
+ "C18-2": ("C18", "collection.go VisitItemsAscendEx(): the version pin is released explicitly after the walk instead of by defer; the read-error path returns before it",
+           "file-backed store with an uncached tree and a ReadAt failure during an ascending walk / IterateAscend",
+           {"C18": "version-still-pinned (fault phase TestC18Fault + quiescent-reference invariant; missed before)"}),
+ "C19-1": ("C19", "collection.go Set(): reads the old value to skip no-op rewrites",
+           "Set over an existing key whose persisted value is not in memory (re-opened store, evicted item)",
+           {"C19": "value-read-by-key-only-op"}),
+ "C19-2": ("C19", "item.go itemLoc.read(): item records of at most 64 bytes are fetched whole on a key-only load",
+           "a persisted, uncached item whose record is <= 64 bytes with a non-empty value, loaded by any key-only operation",
+           {"C19": "value-read-by-key-only-op"}),
 }
 
 def main():
